@@ -117,7 +117,7 @@ func ScratchBase() string {
 		if b == "" {
 			b = "/dev/shm"
 		}
-		scratchBase = filepath.Join(b, fmt.Sprintf("verif.%d", os.Getpid()))
+		scratchBase = filepath.Join(b, fmt.Sprintf("verif-%d", os.Getpid())) // no dot: LuaHelper cuts module paths at the first dot of the whole path
 		os.MkdirAll(scratchBase, 0o755)
 	}
 	return scratchBase
